@@ -361,6 +361,8 @@ func c06extra() []c06tmpl {
 			syncs: []string{"group:g2"}, events: map[string]string{"kgn": "", "kg3": "group:g2"}, scheds: []string{"sg2"}},
 		{id: "two-kube", config: "configVersion: v1\nkubernetes:\n- name: kb1\n  kind: ConfigMap\n  namespace: {nameSelector: {matchNames: [n1]}}\n- name: kb2\n  kind: ConfigMap\n  namespace: {nameSelector: {matchNames: [n2]}}\n",
 			syncs: []string{"sync:kb1", "sync:kb2"}, events: map[string]string{"kb1": "sync:kb1", "kb2": "sync:kb2"}},
+		{id: "two-kube-q2", config: "configVersion: v1\nkubernetes:\n- name: kb1\n  kind: ConfigMap\n  namespace: {nameSelector: {matchNames: [n1]}}\n- name: kbq\n  kind: ConfigMap\n  queue: q2\n  namespace: {nameSelector: {matchNames: [n2]}}\n",
+			syncs: []string{"sync:kb1", "sync:kbq"}, events: map[string]string{"kb1": "sync:kb1", "kbq": "sync:kbq"}},
 		{id: "group-nosync-last", config: "configVersion: v1\nkubernetes:\n- name: kg4\n  kind: ConfigMap\n  group: g3\n  namespace: {nameSelector: {matchNames: [n1]}}\n- name: kgm\n  kind: ConfigMap\n  group: g3\n  executeHookOnSynchronization: false\n  namespace: {nameSelector: {matchNames: [n2]}}\n",
 			syncs: []string{"group:g3"}, events: map[string]string{"kg4": "group:g3", "kgm": ""}},
 	}
@@ -380,7 +382,10 @@ func c06specs() []c06spec {
 		}
 	}
 	for _, x := range c06extra() {
-		sets = append(sets, []c06tmpl{x}, []c06tmpl{menu[1], x})
+		sets = append(sets, []c06tmpl{x})
+		if vres.Thorough() {
+			sets = append(sets, []c06tmpl{menu[1], x})
+		}
 	}
 	if vres.Thorough() {
 		for i := range menu {
